@@ -24,9 +24,9 @@ func (C10) Plan(tier string) core.Plan {
 
 func (C10) Info() core.Info {
 	return core.Info{
-		Rule:        "general worlds (planned and random, all label features, cycles, generators) in which a Convert(T, args) and a Call of a simulator-made identity target func(T) T with the same options are run in one history (both orders), T concrete or interface, under the same seeded schedule; some providers return a nil struct pointer on every execution so that the converted value is the zero value of T. Oracle: on worlds in the stable classes of C05 (outcome independent of iteration order) Convert returns (v,nil) iff the Call succeeds; always: a returned value is assignable to T, its provenance PERMIT-matches a type-only parameter (T,\"\"), on failure the value is nil and the error non-nil; when the target's parameter resolution is unique (no converter involved, one candidate supply) both deliver the same token. A twelfth of the histories convert to a pool type and then, from disjoint options, to its twin: a distinct Go type that prints the same. Non-trivial: >=1 converter; distinct = distinct (world shape, event-log hash)",
+		Rule:        "general worlds (planned and random, all label features, cycles, generators) in which a Convert(T, args) and a Call of a simulator-made identity target func(T) T with the same options are run in one history (both orders), T concrete or interface, under the same seeded schedule; some providers return a nil struct pointer on every execution so that the converted value is the zero value of T. Oracle: on worlds in the stable classes of C05 (outcome independent of iteration order) Convert returns (v,nil) iff the Call succeeds; always: a returned value is assignable to T, its provenance PERMIT-matches a type-only parameter (T,\"\"), on failure the value is nil and the error non-nil; when the target's parameter resolution is unique (no converter involved, one candidate supply) both deliver the same token. One history in 25 converts to the type `error` (the simulated target is then literally func(error) error and hands back what it receives). A twelfth of the histories convert to a pool type and then, from disjoint options, to its twin: a distinct Go type that prints the same. Non-trivial: >=1 converter; distinct = distinct (world shape, event-log hash)",
 		Assumptions: []string{"equivalence is asserted only on C05-stable worlds so that a legitimate difference in how many S1 choices the two entry points consume cannot be mistaken for disagreement"},
-		Probes:      []string{"c10_pairs", "c10_both_ok", "c10_both_fail", "c10_iface_target", "c10_value_checked", "c10_zero_value_converted", "c10_twin_type_pairs", "c10_generator_error_both", "s1_nonidentity_perms"},
+		Probes:      []string{"c10_pairs", "c10_both_ok", "c10_both_fail", "c10_iface_target", "c10_value_checked", "c10_zero_value_converted", "c10_twin_type_pairs", "c10_generator_error_both", "c10_error_typed_target", "s1_nonidentity_perms"},
 		Real:        realComponents,
 		Simulated:   simComponents,
 	}
@@ -64,9 +64,40 @@ func genTwinHistory(r *simrt.RNG) world.World {
 	return w
 }
 
+// genErrorHistory: T = error. The simulated target is literally func(error)
+// error and hands back the value it receives; a value converted to `error` is
+// therefore the call's error on both sides.
+func genErrorHistory(r *simrt.RNG) world.World {
+	var w world.World
+	lt := func(t int) world.Slot { return world.Slot{Label: world.Label{Type: t}} }
+	w.Parties = append(w.Parties, world.Party{InForm: world.FormPositional, OutForm: world.FormPositional, In: []world.Slot{lt(world.ErrIface)}, HasErr: true})
+	w.Faults = append(w.Faults, world.Fault{Kind: "echo_error", Party: 0, Nth: 0})
+	var args []int
+	if r.Bool() {
+		w.Args = append(w.Args, world.ArgSpec{Kind: world.ArgTyped, Label: world.Label{Type: world.ErrImpl}})
+		args = append(args, 0)
+	} else {
+		src := r.Intn(world.NumStruct)
+		w.Parties = append(w.Parties, world.Party{InForm: world.FormPositional, OutForm: world.FormPositional, In: []world.Slot{lt(src)}, Out: []world.Slot{{Label: world.Label{Type: world.ErrImpl}}}})
+		w.Args = append(w.Args, world.ArgSpec{Kind: world.ArgConv, Party: 1}, world.ArgSpec{Kind: world.ArgTyped, Label: world.Label{Type: src}})
+		args = append(args, 0, 1)
+	}
+	call := world.Op{Kind: world.OpCall, Target: 0, Args: args}
+	conv := world.Op{Kind: world.OpConvert, Type: world.ErrIface, Args: args}
+	if r.Bool() {
+		w.Ops = []world.Op{call, conv}
+	} else {
+		w.Ops = []world.Op{conv, call}
+	}
+	return w
+}
+
 func (C10) Gen(r *simrt.RNG, tier string) core.Case {
 	if r.Chance(1, 12) {
 		return RCase{W: genTwinHistory(r)}
+	}
+	if r.Chance(1, 25) {
+		return RCase{W: genErrorHistory(r)}
 	}
 	cfg := world.SwarmCfg(r)
 	cfg.MaxParams = 1
@@ -163,7 +194,7 @@ func c10Valid(w world.World) bool {
 		return false
 	}
 	for _, f := range w.Faults {
-		if f.Kind != "nil_struct" || f.Nth != 0 {
+		if (f.Kind != "nil_struct" && f.Kind != "echo_error") || f.Nth != 0 {
 			return false
 		}
 	}
@@ -256,6 +287,9 @@ func (C10) Run(c core.Case, ctx *core.Ctx) []core.Violation {
 			ctx.St.Inc("c10_pairs")
 			if world.IsIface(ty) {
 				ctx.St.Inc("c10_iface_target")
+			}
+			if ty == world.ErrIface {
+				ctx.St.Inc("c10_error_typed_target")
 			}
 			if pn > 0 && ty >= world.TwinBase || pn > 0 && w.Ops[pairs[0][1]].Type >= world.TwinBase {
 				ctx.St.Inc("c10_twin_type_pairs")
